@@ -56,6 +56,10 @@ def run(ctx: Ctx):
     from .common import rebuild_forwards_settings
 
     rebuild_forwards_settings(ctx, "rebuild-settings", "cube.py", "Cube", ("mask_size",))
+    from .common import lazyproperty_call_form
+
+    # a base / margin attribute built by a property FACTORY shares its cache slot with its siblings (weighted <-> unweighted)
+    lazyproperty_call_form(ctx, "cache-key", shorts=("matrix/measure.py", "stripe/measure.py", "matrix/cubemeasure.py", "stripe/cubemeasure.py"))
 
 
 # --------------------------------------------------------------------------- layouts
